@@ -17,10 +17,10 @@ CasesAt(pos) ==
       mis == {p \in UNION {{<<a, b>> : b \in Neighbours(a)} : a \in Seeds} : OKAt(pos, p[1], p[2])} IN
   RandomSubset(IF NCollide < Cardinality(col) THEN NCollide ELSE Cardinality(col), col)
   \cup RandomSubset(IF NMiss < Cardinality(mis) THEN NMiss ELSE Cardinality(mis), mis)
-ShapeCases == {[pos |-> "shape", shape |-> sh] : sh \in Shapes}
+ShapeCases == {[pos |-> "shape", shape |-> sh] : sh \in Shapes} \cup {[pos |-> "suffix", shape |-> w] : w \in BuildSuffixes}
 Init == c \in UNION {{[pos |-> pos, a |-> p[1], b |-> p[2]] : p \in CasesAt(pos)} : pos \in Positions} \cup ShapeCases
 Next == UNCHANGED c
-Emit == IF c.pos = "shape" THEN PrintT(<<"CASE", ToJson([pos |-> "shape", a |-> c.shape, b |-> "-", expectCollision |-> FALSE])>>)
+Emit == IF c.pos \in {"shape", "suffix"} THEN PrintT(<<"CASE", ToJson([pos |-> c.pos, a |-> c.shape, b |-> "-", expectCollision |-> FALSE])>>)
         ELSE PrintT(<<"CASE", ToJson([pos |-> c.pos, a |-> Text(c.a), b |-> Text(c.b), expectCollision |-> ExpectedCollision(c.a, c.b)])>>)
 GInit == Init /\ LInit
 GNext == UNCHANGED <<c, phase, nops, ndefs, routes>>
